@@ -119,7 +119,7 @@ static void run(const vf::Args& a, vf::Evidence& ev, vf::Reporter& rep) {
   zc::Ctx c{&a, &ev, &rep};
   zc::ZoneProp p;
   p.check_zone = check_zone;
-  zc::run_all(c, p, 300, 5000);
+  zc::run_all(c, p, 900, 5000);
 }
 
 int main(int argc, char** argv) { return vf::main_dispatch(argc, argv, "C03", run, replay); }
